@@ -84,7 +84,7 @@ theorem unpad_pad (d : Bytes) : unpadAes (pkcs7Pad d) = d := by
     cases n with
     | zero => omega
     | succ m => simp [List.replicate_succ', ← List.append_assoc]
-  unfold unpadAes
+  unfold unpadAes UNPAD_MIN UNPAD_MAX
   rw [hlast]
   simp only [hb, List.length_append, List.length_replicate]
   have hdrop : (d ++ List.replicate n (UInt8.ofNat n)).drop (d.length + n - n) = List.replicate n (UInt8.ofNat n) := by
